@@ -4,11 +4,17 @@ import RawPanelVerif.Spec.SvgSpec
 /-!
 Driver glue for the `svg.*` records (C15).
 ```
-svg.gen showLabels showHWCID showType showDisplaySize base:hex baseOk:01 MASK ROT T  |  OUT
+svg.gen showLabels showHWCID showType showDisplaySize base:hex kinds:hex endOk:01 MASK ROT T  |  OUT
+kinds := one letter per token `encoding/xml`'s `Decoder.Token` delivers for the base (S start element, E end element,
+         C / W character data non-blank / blank, M comment, P processing instruction, D directive); endOk = the stream
+         ended with io.EOF (no syntax error).  The harness's independent judgement; input of model and Spec.
 MASK := ~ | + n (id value)^n
 ROT  := n (token fmt fmt90 zero90:01)^n        Sprintf("%03f") of each rotation token occurring in T, and of value+90
-OUT  := nil strEmpty:01 | doc strEmpty:01 kept:01 wellformed:01 n NODE^n
-NODE := name:hex nA (key:hex value:hex)^nA text:hex
+OUT  := PR nil strEmpty:01 | PR doc strEmpty:01 kept:01 kept2:01 wellformed:01 tail:01 n NODE^n
+PR   := err | noroot | root                    what the real xmldom.ParseXML(base) returned
+NODE := name:hex nA (key:hex value:hex)^nA text:hex printed:hex          printed = node.XML()
+
+svg.esc s:hex | printed:hex     (&xmldom.Node{Name: "text", Attributes: {style: s}, Text: s}).XML(): the printer on any bytes
 ```
 `strEmpty` = `GenerateCompositeSVG(...) == ""` (the string-returning wrapper).
 -/
@@ -28,37 +34,47 @@ def pRot : P (List (Str × Svg.RotInfo)) := do
   let n ← pNat
   pMany (do let t ← pTok; let f ← pTok; let f90 ← pTok; let z ← pBool; pure (t, { fmt := f, fmt90 := f90, zero90 := z })) n
 
-def pNode : P SvgNode := do
+def pNode : P (SvgNode × Str) := do
   let name ← pHex
   let n ← pNat
   let attrs ← pMany (do let k ← pHex; let v ← pHex; pure (k, v)) n
   let text ← pHex
-  pure { name, attrs, text }
+  let printed ← pHex
+  pure ({ name, attrs, text }, printed)
 
 structure Out where
-  nodes : Option (List SvgNode)
+  pr : String
+  nodes : Option (List (SvgNode × Str))
   strEmpty : Bool
-  kept : Bool
-  wf : Bool
+  ob : Spec.Svg.Observed
 
 def pOut : P Out := do
+  let pr ← tok
   let t ← tok
   if t = "nil" then do
     let e ← pBool
-    pure { nodes := none, strEmpty := e, kept := true, wf := true }
+    pure { pr, nodes := none, strEmpty := e, ob := { kept := true, kept2 := true, wellformed := true, tail := true } }
   else if t = "doc" then do
-    let e ← pBool; let kept ← pBool; let wf ← pBool; let n ← pNat
+    let e ← pBool; let kept ← pBool; let kept2 ← pBool; let wf ← pBool; let tail ← pBool; let n ← pNat
     let nodes ← pMany pNode n
-    pure { nodes := some nodes, strEmpty := e, kept, wf }
+    pure { pr, nodes := some nodes, strEmpty := e, ob := { kept, kept2, wellformed := wf, tail } }
   else failure
 
 def sNode (n : SvgNode) : List String :=
-  [sHex n.name, sNat n.attrs.length] ++ n.attrs.flatMap (fun a => [sHex a.1, sHex a.2]) ++ [sHex n.text]
+  [sHex n.name, sNat n.attrs.length] ++ n.attrs.flatMap (fun a => [sHex a.1, sHex a.2]) ++ [sHex n.text, sHex (Svg.printNode n)]
 
-def sOut (baseOk : Bool) (r : Option (List SvgNode)) : String :=
+def sPR : Svg.ParseResult → String
+  | .err => "err"
+  | .noRoot => "noroot"
+  | .root => "root"
+
+/-- the model's output line; the four observed flags are printed as `1` (the model has no base document) -/
+def sOut (pr : Svg.ParseResult) (r : Option (List SvgNode)) : String :=
   match r with
-  | none => s!"nil {showBool (!baseOk)}"
-  | some ns => " ".intercalate (["doc", showBool (!baseOk), "1", "1", sNat ns.length] ++ ns.flatMap sNode)
+  | none => s!"{sPR pr} nil 1"
+  | some ns => " ".intercalate ([sPR pr, "doc", "0", "1", "1", "1", "1", sNat ns.length] ++ ns.flatMap sNode)
+
+def escNode (s : Str) : SvgNode := { name := Svg.b "text", attrs := [(Svg.b "style", s)], text := s }
 
 def step (cmd : String) (args0 : List String) (impl : String) : String :=
   let args := args0.filter (fun a => !a.startsWith "#")
@@ -67,16 +83,18 @@ def step (cmd : String) (args0 : List String) (impl : String) : String :=
   | "svg.gen" =>
     let parsed := run (do
       let a ← pBool; let b ← pBool; let c ← pBool; let d ← pBool
-      let _base ← pHex; let baseOk ← pBool; let mask ← pMask; let rot ← pRot; let t ← pTopo
-      pure (({ showLabels := a, showHWCID := b, showType := c, showDisplaySize := d } : SvgOpts), baseOk, mask, rot, t)) args
+      let _base ← pHex; let kinds ← pHex; let endOk ← pBool; let mask ← pMask; let rot ← pRot; let t ← pTopo
+      pure (({ showLabels := a, showHWCID := b, showType := c, showDisplaySize := d } : SvgOpts), kinds, endOk, mask, rot, t)) args
     match parsed with
     | none => "ERR bad-record"
-    | some (o, baseOk, mask, rot, t) =>
+    | some (o, kinds, endOk, mask, rot, t) =>
       let rotF : Str → Svg.RotInfo := fun tk => (rot.lookup tk).getD { fmt := [63], fmt90 := [63], zero90 := false }
-      let m := Svg.compositeNodes rotF baseOk o t mask
-      let ms := sOut baseOk m
+      let pr := Svg.parseXML kinds endOk
+      let m := Svg.compositeNodes rotF kinds endOk o t mask
+      let ms := sOut pr m
       let eq := ms = " ".intercalate implToks
-      let tags := [if baseOk then "base-ok" else "base-bad",
+      let baseOk := Spec.Svg.baseOk kinds endOk
+      let tags := [if baseOk then "base-ok" else "base-bad", s!"pr-{sPR pr}",
                    (match mask with | none => "nomap" | some [] => "emptymap" | some _ => "map"),
                    s!"n{(t.hwc.filter (Spec.Svg.visible mask)).length}"]
       let b := " ".intercalate (tags.map (fun x => "B:" ++ x))
@@ -85,9 +103,22 @@ def step (cmd : String) (args0 : List String) (impl : String) : String :=
         match run pOut implToks with
         | none => s!"NE H0:shape {ms} {b}"
         | some io =>
-          let h := Spec.Svg.checkSVG o t mask baseOk io.nodes io.kept io.wf
+          let h := Spec.Svg.checkSVG (Svg.fmtOf rotF) o t mask kinds endOk io.nodes io.ob
           let h := if h.isNone && !baseOk && !io.strEmpty then some "bad-base-string-not-empty" else h
           if eq then s!"EQ {hTag h} {b}" else s!"NE {hTag h} {ms} {b}"
+  | "svg.esc" =>
+    match run pHex args with
+    | none => "ERR bad-record"
+    | some s =>
+      let n := escNode s
+      let ms := sHex (Svg.printNode n)
+      if impl.startsWith "panic:" then s!"NE H0:panic {ms} B:esc"
+      else
+        match run pHex implToks with
+        | none => s!"NE H0:shape {ms} B:esc"
+        | some p =>
+          let h := if Spec.Svg.printedOk n p then none else some "wf-printed"
+          if ms = " ".intercalate implToks then s!"EQ {hTag h} B:esc" else s!"NE {hTag h} {ms} B:esc"
   | _ => "ERR bad-record"
 
 end RawPanelVerif.Driver.Svg
